@@ -26,10 +26,17 @@ class Built:
     tok_bytes: object = None  # optional override: (tok, a, n) -> bytes for D tokens (e.g. compressed grains)
     cb: int = 1  # cells per allocation unit (for D tokens: c = position * cb + cell in unit)
     stride: int = 0  # bytes between consecutive unit positions (0 -> cb * cell)
+    fids: dict = field(default_factory=dict)  # token file f -> pattern file id actually stored (identity of this image)
+    csalt: int = 0  # added to the unit id of compressed content
 
     def geo(self, nfiles=1):
-        return {"cellB": self.cell, "cb": self.cb, "stride": self.stride or self.cb * self.cell,
-                "bases": [self.bases.get(f, 0) for f in range(nfiles)], "pbase": self.parent_base}
+        g = {"cellB": self.cell, "cb": self.cb, "stride": self.stride or self.cb * self.cell,
+             "bases": [self.bases.get(f, 0) for f in range(nfiles)], "pbase": self.parent_base}
+        if self.fids:
+            g["fids"] = [self.fids.get(f, f) for f in range(max(nfiles, max(self.fids) + 1))]
+        if self.csalt:
+            g["csalt"] = self.csalt
+        return g
 
 
 class ParentStream(io.RawIOBase):
@@ -97,13 +104,13 @@ def token_bytes(tok, a, b, built: Built):
     if k == "D":
         c = tok["c"]
         stride = built.stride or built.cb * built.cell
-        return patterns.pat(tok["f"], built.bases[tok["f"]] + (c // built.cb) * stride + (c % built.cb) * built.cell + a, n)
+        return patterns.pat(built.fids.get(tok["f"], tok["f"]), built.bases[tok["f"]] + (c // built.cb) * stride + (c % built.cb) * built.cell + a, n)
     if k == "B":
         if built.has_parent:
             return patterns.pat(PARENT_F, built.parent_base + tok["c"] * built.cell + a, n)
         return bytes(n)
     if k == "C":
-        return patterns.cpat(tok["f"], tok["c"] * built.cell + a, n)
+        return patterns.cpat(tok["f"] + built.csalt, tok["c"] * built.cell + a, n)
     raise ValueError(tok)
 
 
